@@ -154,6 +154,8 @@ func c09(c *Ctx) {
 		sort.Slice(entries, func(i, j int) bool { return entries[i].String() < entries[j].String() })
 		c.noGlobalWrites("R09.P", entries, "the client's paths: two clients of one process would share it")
 	}
+	r.Rule("R09.N", "a caller whose request the server refused for its salt is told to repeat it on every path through the bad_server_salt arm (= R11.N filed under C09): an early exit before the lookup leaves that call waiting for ever", 1)
+	c.rotationNotifiesOnEveryPath("R09.N")
 	r.Rule("R09.H", "an rpc_error reaches its caller unless the client has repaired its cause: tryToProcessErr returns the error it was given or the result of Reconnect(), never a nil of its own (= R17.M handled-only-by-reconnect filed under C09)", 1)
 	c.handledOnlyByReconnect("R09.H")
 	r.Rule("R09.V", "no goroutine or deferred function literal started inside a loop captures a variable that is one cell for the whole loop and is stored on every iteration (go 1.13 loop-variable semantics: every item of a container would be processed as the last one)", 1)
@@ -527,48 +529,7 @@ func c11(c *Ctx) {
 	}
 	// ---- R11.N: the rejected request is notified on every path through the arm ----------------------
 	r.Rule("R11.N", "in the bad_server_salt arm, when a waiter is registered under bad_msg_id, every path to the end of the arm passes the retry-marker send", 1)
-	if len(sends) > 0 {
-		// the block where the arms join again: the seq_no parity test
-		var join *ssa.BasicBlock
-		for _, i := range an.Ifs(pr) {
-			cd, ok := an.Classify(i)
-			if ok && cd.Kind == "eq" {
-				if bo, isBin := cd.X.(*ssa.BinOp); isBin && bo.Op.String() == "&" && strings.Contains(tr.OriginString(bo.X), "messages.Common).GetSeqNo") {
-					join = i.Block()
-				}
-			}
-		}
-		if join == nil {
-			r.Undecide("R11.N", "notify:every-path", c.pos(pr.Pos()), "the join point after the dispatch (seq_no parity test) was not found")
-		} else {
-			cut := map[an.Edge]bool{}
-			for _, s := range sends {
-				for _, p := range s.Block().Preds {
-					for si, sc := range p.Succs {
-						if sc == s.Block() {
-							cut[an.Edge{From: p, Succ: si}] = true
-						}
-					}
-				}
-			}
-			reach := an.ReachWith(pr, cut, func(i *ssa.If) (int, bool) {
-				cd, ok := an.Classify(i)
-				if !ok {
-					return 0, false
-				}
-				switch {
-				case cd.Kind == "assert" && strings.Contains(tr.OriginString(cd.X), "DecodeUnknownObject#0"):
-					return cd.EdgeWhen(typeString(cd.Assert.AssertedType) == "*objects.BadServerSalt").Succ, true
-				case cd.Kind == "nil" && strings.Contains(tr.OriginString(cd.X), "DecodeUnknownObject#1"):
-					return cd.EdgeWhen(true).Succ, true
-				case cd.Kind == "bool" && strings.Contains(tr.OriginString(cd.X), "SyncIntObjectChan).Get#1"):
-					return cd.EdgeWhen(true).Succ, true // a waiter is registered
-				}
-				return 0, false
-			})
-			r.Check(!reach[join], "R11.N", "notify:every-path", c.pos(sends[0].Pos()), "with a waiter registered under bad_msg_id, the end of the bad_server_salt arm is reachable without sending it the retry marker (an early exit from the arm): that caller waits for ever")
-		}
-	}
+	c.rotationNotifiesOnEveryPath("R11.N")
 
 	r.Rule("R11.F", "the rotation handler forgets only the entry it notifies: the key of every Delete in processResponse / writeRPCResponse is the key of the Get that found the waiter (requests accepted before the rotation keep their entries and get their answers)", 2)
 	c.forgetOnlyTheEntryServed("R11.F")
@@ -1171,6 +1132,72 @@ func (c *Ctx) tableLocks(rule string) {
 					r.Check(covered, rule, key, c.pos(in.Pos()), what)
 				}
 			}
+		}
+	}
+}
+
+// rotationNotifiesOnEveryPath: in processResponse, with the message decided to be bad_server_salt and a waiter found
+// under bad_msg_id, the end of the arm is unreachable without passing a send of the retry marker.
+func (c *Ctx) rotationNotifiesOnEveryPath(rule string) {
+	r := c.R
+	pr := c.P.Func(load.RootMod, "*MTProto", "processResponse")
+	if pr == nil {
+		r.Undecide(rule, "notify:every-path", "", "processResponse not found")
+		return
+	}
+	tr := an.NewTracer()
+	var sends []*ssa.Send
+	for _, b := range pr.Blocks {
+		for _, in := range b.Instrs {
+			if s, ok := in.(*ssa.Send); ok && strings.Contains(tr.OriginString(s.X), "alloc:mtproto.errorSessionConfigsChanged") {
+				sends = append(sends, s)
+			}
+		}
+	}
+	if len(sends) == 0 {
+		r.Undecide(rule, "notify:every-path", c.pos(pr.Pos()), "no send of the retry marker in processResponse")
+		return
+	}
+	if len(sends) > 0 {
+		// the block where the arms join again: the seq_no parity test
+		var join *ssa.BasicBlock
+		for _, i := range an.Ifs(pr) {
+			cd, ok := an.Classify(i)
+			if ok && cd.Kind == "eq" {
+				if bo, isBin := cd.X.(*ssa.BinOp); isBin && bo.Op.String() == "&" && strings.Contains(tr.OriginString(bo.X), "messages.Common).GetSeqNo") {
+					join = i.Block()
+				}
+			}
+		}
+		if join == nil {
+			r.Undecide(rule, "notify:every-path", c.pos(pr.Pos()), "the join point after the dispatch (seq_no parity test) was not found")
+		} else {
+			cut := map[an.Edge]bool{}
+			for _, s := range sends {
+				for _, p := range s.Block().Preds {
+					for si, sc := range p.Succs {
+						if sc == s.Block() {
+							cut[an.Edge{From: p, Succ: si}] = true
+						}
+					}
+				}
+			}
+			reach := an.ReachWith(pr, cut, func(i *ssa.If) (int, bool) {
+				cd, ok := an.Classify(i)
+				if !ok {
+					return 0, false
+				}
+				switch {
+				case cd.Kind == "assert" && strings.Contains(tr.OriginString(cd.X), "DecodeUnknownObject#0"):
+					return cd.EdgeWhen(typeString(cd.Assert.AssertedType) == "*objects.BadServerSalt").Succ, true
+				case cd.Kind == "nil" && strings.Contains(tr.OriginString(cd.X), "DecodeUnknownObject#1"):
+					return cd.EdgeWhen(true).Succ, true
+				case cd.Kind == "bool" && strings.Contains(tr.OriginString(cd.X), "SyncIntObjectChan).Get#1"):
+					return cd.EdgeWhen(true).Succ, true // a waiter is registered
+				}
+				return 0, false
+			})
+			r.Check(!reach[join], rule, "notify:every-path", c.pos(sends[0].Pos()), "with a waiter registered under bad_msg_id, the end of the bad_server_salt arm is reachable without sending it the retry marker (an early exit from the arm): that caller waits for ever")
 		}
 	}
 }
